@@ -394,6 +394,47 @@ def stage_loop(run, prop, it=None):
 
 
 # ---------------------------------------------------------------------------------------
+# the callee contract `_finalize_adapters` used by stage_loop is the function's own obligation: its real body on stub adapters
+
+
+def finalize_adapters(run, it):
+    """every adapter of every transition that has adapter states is finalized exactly once, with its own per-chain states, the transition of its
+    key, all chain states and all generators -- whatever other transitions (with an empty adapter list) come before it in the dictionaries"""
+    import itertools as _it
+    run.function("mici.samplers._finalize_adapters")
+    tag = P + "_finalize_adapters"
+    layouts = [("momentum", 0), ("integration", 2), ("other", 1)]
+
+    def h(ctx):
+        order = list(_it.permutations(range(3)))[ctx.choose(6, "transition-order")]
+        mod = it.module(MOD)
+        ex = Exec(it, ctx, mod, mod.env, "harness")
+        calls = []
+
+        def mk_adapter(name):
+            def fin(ex_, states, chain_states, transition, rngs):
+                calls.append((name, states, list(chain_states), transition, list(rngs)))
+            return Opaque(name, finalize=Native(fin, name + ".finalize"))
+        keys = [layouts[i] for i in order]
+        adapters = {k: [mk_adapter(f"{k}-adapter{j}") for j in range(n)] for k, n in keys}
+        ad_states = {k: [[f"{k}-ad{j}-chain{c}" for c in range(2)] for j in range(n)] for k, n in keys}
+        transitions = {k: Opaque(f"transition<{k}>") for k, _ in keys}
+        chain_states, rngs = [Opaque("cs0"), Opaque("cs1")], [Opaque("rng0"), Opaque("rng1")]
+        try:
+            ex.call(mod.resolve("_finalize_adapters", ctx), [ad_states, chain_states, adapters, transitions, rngs], {})
+        except PyRaise as pr:
+            ctx.run.ob(tag + "/no-exception", core.FAILED, "pyvc", detail=f"{exc_name(pr.exc)} {pr.exc.attrs.get('args')} for key order {[k for k, _ in keys]}")
+            return
+        want = [(f"{k}-adapter{j}", ad_states[k][j], chain_states, transitions[k], rngs) for k, n in keys for j in range(n)]
+        got = [(a, st_, cs, tr, rg) for a, st_, cs, tr, rg in calls]
+        ok = len(got) == len(want) and all(g_[0] == w_[0] and g_[1] is w_[1] and g_[2] == w_[2] and g_[3] is w_[3] and g_[4] == w_[4] for g_, w_ in zip(got, want))
+        ctx.run.ob(tag + "/every-adapter-finalized-once-with-its-own-states-and-transition", core.DISCHARGED if ok else core.FAILED, "pyvc",
+                   detail="" if ok else f"key order {[k for k, _ in keys]} (adapters per key {dict(keys)}): finalize calls {[c[0] for c in calls]}, expected {[w_[0] for w_ in want]}",
+                   witness=None if ok else {"key_order": [k for k, _ in keys]},
+                   text="for every order of the transition keys, incl. a key with an empty adapter list first: one finalize call per (transition, adapter) with matching arguments")
+    it.explore(h, "_finalize_adapters")
+
+
 # allocation of trace / statistics arrays (real _init_stats, _init_traces, _generate_memmap_filenames, _get_valid_filename)
 
 
